@@ -178,7 +178,8 @@ func MetaSection(t *rapid.T) ([]byte, MetaExpect) {
 				label("length-off")
 			}
 		case 1:
-			declared = rapid.SampledFrom([]int{1 << 14, 1<<30 - 1, 1 << 20}).Draw(t, "len.huge")
+			// far too large, incl. values that equal the true length modulo 2^16 / 2^24
+			declared = rapid.SampledFrom([]int{1 << 14, 1<<30 - 1, 1 << 20, len(body) + 1<<16, len(body) + 1<<24, len(body) + 3<<16, len(body) + 1<<29}).Draw(t, "len.huge")
 			bad("chunk length past end of input")
 			label("length-huge")
 		}
